@@ -84,7 +84,7 @@ pub fn gen_case(rng: &mut Rng, i: usize, maxrecs: usize) -> CovCase {
     CovCase {
         k,
         // (bin sizes beyond 2^32: every multiplicity that occurs here is below them, so everything lands in bin 0)
-        bs: *rng.pick(&[1usize, 2, 3, 5, 16, 7, 4_294_967_301, 1 << 40]),
+        bs: *rng.pick(&[1usize, 2, 3, 5, 16, 7, 4_294_967_301, 1 << 40, 1 << 62]),      // (2^62 x (bin count - 1) passes 2^64)
         bc: *rng.pick(&[1usize, 2, 3, 5, 16]),
         norm: i % 2 == 0,
         threads: if big { 8 } else { 1 + rng.below(16) as usize },
